@@ -242,12 +242,18 @@ func alias(g *core.G, intsOnly bool, trees ...*core.N) {
 // model against the code only.
 func pair(g *core.G, weighted bool, forceKind int) (*core.N, *core.N) {
 	o := baseOpts(g, weighted)
-	if g.Chance(0.08) {
+	if g.Chance(0.14) {
 		o.Rooted = 1
 	} else if g.Chance(0.06) {
 		o.Singles = 0.15
 	}
 	r, _ := g.Tree(o)
+	if forceKind < 0 && g.Chance(0.04) {
+		// degenerate shape, tie only: the root is itself a tip (a single neighbour)
+		r.E = core.NewE()
+		r.E.Len = g.Length(&o)
+		r = &core.N{Name: "rootTip", Kids: []*core.N{r}}
+	}
 	kind := g.Intn(len(kindNames))
 	if forceKind >= 0 {
 		kind = forceKind
@@ -383,26 +389,91 @@ func one(c *tree.Tree) <-chan tree.Trees {
 	return ch
 }
 
+// workers is the number of worker goroutines of the next comparisons (1, 2, 4, 16).  With
+// more than one worker the channel also carries three decoys (fresh copies of the reference,
+// ids 101..103) around the compared tree, so that several workers really take trees; every
+// tree must get exactly one record, carrying its id, and the record of a decoy must say
+// "identical".  The record of the compared tree must be the sequential one whatever the
+// number of workers (schedules themselves are C11's business).
+var workers = 1
+
+func feed(rn *core.N, c *tree.Tree) (<-chan tree.Trees, int) {
+	if workers <= 1 {
+		return one(c), 1
+	}
+	ch := make(chan tree.Trees, 4)
+	ch <- tree.Trees{Tree: build(rn), Id: 101}
+	ch <- tree.Trees{Tree: c, Id: recordId}
+	ch <- tree.Trees{Tree: build(rn), Id: 102}
+	ch <- tree.Trees{Tree: build(rn), Id: 103}
+	close(ch)
+	return ch, 4
+}
+
+// collect checks the bookkeeping of the records and returns the one of the compared tree.
+// inProperty: root of degree >= 3 and no single-child node (the trees of the property; a
+// tree with a single-child node has two branches for one split and is not even "identical"
+// to itself for CompareWeighted when their lengths differ).
+func inProperty(n *core.N) bool {
+	if len(n.Kids) < 3 {
+		return false
+	}
+	ok := true
+	var rec func(x *core.N)
+	rec = func(x *core.N) {
+		for _, k := range x.Kids {
+			if len(k.Kids) == 1 {
+				ok = false
+			}
+			rec(k)
+		}
+	}
+	rec(n)
+	return ok
+}
+
+func collect(strict bool, n int, ids []int, errs []error, same []bool, recs []string) string {
+	seen := map[int]int{}
+	out := "none"
+	for i, id := range ids {
+		seen[id]++
+		if id == recordId {
+			out = recs[i]
+		} else if strict && (errs[i] != nil || !same[i]) {
+			return "panic:" + core.Escape(fmt.Sprintf("decoy %d (the reference itself) not reported identical", id))
+		}
+	}
+	if len(ids) != n || seen[recordId] != 1 || len(seen) != n {
+		return "panic:" + core.Escape(fmt.Sprintf("%d records for %d trees, ids %v", len(ids), n, ids))
+	}
+	return out
+}
+
 func runCompare(rn, cn *core.N, tips, sc bool) string {
 	r, c := build(rn), build(cn)
 	out := "none"
 	if p, msg := core.Safe(func() {
-		stats, err := tree.Compare(r, one(c), tips, sc, 1)
+		ch, n := feed(rn, c)
+		stats, err := tree.Compare(r, ch, tips, sc, workers)
 		if err != nil {
 			out = "referr"
 			return
 		}
-		n := 0
+		var ids []int
+		var errs []error
+		var same []bool
+		var recs []string
 		for st := range stats {
-			n++
-			if st.Id != recordId || n > 1 {
-				out = "panic:" + core.Escape(fmt.Sprintf("record %d carries tree id %d", n, st.Id))
-			} else if st.Err != nil {
-				out = "err"
+			ids = append(ids, st.Id)
+			errs = append(errs, st.Err)
+			same = append(same, st.Sametree)
+			if st.Err != nil {
+				recs = append(recs, "err")
 			} else {
-				out = fmt.Sprintf("ok;%d;%d;%d;%v", st.Tree1, st.Common, st.Tree2, st.Sametree)
+				recs = append(recs, fmt.Sprintf("ok;%d;%d;%d;%v", st.Tree1, st.Common, st.Tree2, st.Sametree))
 			}
 		}
+		out = collect(inProperty(rn), n, ids, errs, same, recs)
 	}); p {
 		return "panic:" + core.Escape(msg)
 	}
@@ -413,22 +484,27 @@ func runWeighted(rn, cn *core.N, tips, sc bool) string {
 	r, c := build(rn), build(cn)
 	out := "none"
 	if p, msg := core.Safe(func() {
-		stats, err := tree.CompareWeighted(r, one(c), tips, sc, 1)
+		ch, n := feed(rn, c)
+		stats, err := tree.CompareWeighted(r, ch, tips, sc, workers)
 		if err != nil {
 			out = "referr"
 			return
 		}
-		n := 0
+		var ids []int
+		var errs []error
+		var same []bool
+		var recs []string
 		for st := range stats {
-			n++
-			if st.Id != recordId || n > 1 {
-				out = "panic:" + core.Escape(fmt.Sprintf("record %d carries tree id %d", n, st.Id))
-			} else if st.Err != nil {
-				out = "err"
+			ids = append(ids, st.Id)
+			errs = append(errs, st.Err)
+			same = append(same, st.Sametree)
+			if st.Err != nil {
+				recs = append(recs, "err")
 			} else {
-				out = fmt.Sprintf("ok;%v;%s;%s;%s", st.Sametree, core.RatList(st.Tree1), core.RatList(st.Tree2), core.RatList(st.Common))
+				recs = append(recs, fmt.Sprintf("ok;%v;%s;%s;%s", st.Sametree, core.RatList(st.Tree1), core.RatList(st.Tree2), core.RatList(st.Common)))
 			}
 		}
+		out = collect(inProperty(rn), n, ids, errs, same, recs)
 	}); p {
 		return "panic:" + core.Escape(msg)
 	}
@@ -444,6 +520,7 @@ func b01(b bool) string {
 
 func doCmp(c *core.Ctx, weighted, tips, sc bool, rn, cn *core.N) {
 	r2, c2 := rerooted(c.G, rn), rerooted(c.G, cn)
+	workers = []int{1, 1, 2, 4, 16}[c.G.Intn(5)]
 	emitCmp(c, weighted, tips, sc, rn, cn, r2, c2)
 }
 
@@ -454,11 +531,11 @@ func emitCmp(c *core.Ctx, weighted, tips, sc bool, rn, cn, r2, c2 *core.N) {
 		f = runWeighted
 		op = "C08.wcmp"
 	}
-	if !begin(c, op, b01(tips), b01(sc), rn.Dump(), cn.Dump(), r2.Dump(), c2.Dump()) {
+	if !begin(c, op, b01(tips), b01(sc), rn.Dump(), cn.Dump(), r2.Dump(), c2.Dump(), strconv.Itoa(workers)) {
 		return
 	}
 	emit(c, op, b01(tips), b01(sc), rn.Dump(), cn.Dump(), r2.Dump(), c2.Dump(),
-		f(rn, cn, tips, sc), f(cn, rn, tips, sc), f(r2, c2, tips, sc))
+		f(rn, cn, tips, sc), f(cn, rn, tips, sc), f(r2, c2, tips, sc), strconv.Itoa(workers))
 }
 
 func doCommon(c *core.Ctx, tips bool, an, bn *core.N) {
@@ -601,6 +678,78 @@ func doCLI(c *core.Ctx, mode string, tips bool, rn *core.N, cns []*core.N) {
 	emit(c, "C08.cli", mode, b01(tips), rn.Dump(), core.Dumps(cns), outcome, rows.String())
 }
 
+// `gotree compare edges -i ref -c comp`: one row per branch of the reference (brid, terminal,
+// topodepth, found, transfer distance).
+func doCLIEdges(c *core.Ctx, rn, cn *core.N) {
+	if !begin(c, "C08.cliedges", rn.Dump(), cn.Dump()) {
+		return
+	}
+	ref := c.TmpFile(build(rn).Newick() + "\n")
+	comp := c.TmpFile(build(cn).Newick() + "\n")
+	res := c.RunCLI("", 20*time.Second, "compare", "edges", "-i", ref, "-c", comp)
+	outcome := cliOutcome(res)
+	var rows strings.Builder
+	for i, l := range strings.Split(strings.TrimRight(res.Stdout, "\n"), "\n") {
+		f := strings.Split(l, "\t")
+		if i == 0 || len(f) < 12 {
+			continue
+		}
+		// tree, brid, terminal, topodepth, found, transfer
+		rows.WriteString(strings.Join([]string{f[0], f[1], f[4], f[6], f[9], f[11]}, ";"))
+		rows.WriteByte('|')
+	}
+	emit(c, "C08.cliedges", rn.Dump(), cn.Dump(), outcome, rows.String())
+}
+
+func cliOutcome(res core.CLIResult) string {
+	if res.Timeout {
+		return "timeout"
+	}
+	if res.Exit != 0 {
+		for _, l := range strings.Split(res.Stderr, "\n") {
+			if strings.HasPrefix(l, "fatal error:") || strings.HasPrefix(l, "panic:") {
+				return "crash:" + core.Escape(l)
+			}
+		}
+		return "error"
+	}
+	return "ok"
+}
+
+// `gotree compare tips`: mode "c" (-c trees), "f" (-f tip list), "cf" (both: -c has priority,
+// the tip list given is a decoy).
+func doCLITips(c *core.Ctx, mode string, rn *core.N, cns []*core.N) {
+	if !begin(c, "C08.clitips", mode, rn.Dump(), core.Dumps(cns)) {
+		return
+	}
+	ref := c.TmpFile(build(rn).Newick() + "\n")
+	args := []string{"compare", "tips", "-i", ref}
+	if mode == "c" || mode == "cf" {
+		var b strings.Builder
+		for _, cn := range cns {
+			b.WriteString(build(cn).Newick())
+			b.WriteByte('\n')
+		}
+		args = append(args, "-c", c.TmpFile(b.String()))
+	}
+	if mode == "f" {
+		args = append(args, "-f", c.TmpFile(strings.Join(cns[0].TipNames(), "\n")+"\n"))
+	}
+	if mode == "cf" {
+		args = append(args, "-f", c.TmpFile("decoy_a\ndecoy_b\n"))
+	}
+	res := c.RunCLI("", 20*time.Second, args...)
+	var rows strings.Builder
+	for _, l := range strings.Split(strings.TrimRight(res.Stdout, "\n"), "\n") {
+		var id int
+		var sign, name string
+		if n, _ := fmt.Sscanf(l, "(Tree %d) %s %s", &id, &sign, &name); n == 3 && (sign == "<" || sign == ">" || sign == "=") {
+			rows.WriteString(fmt.Sprintf("%d;%s;%s|", id, map[string]string{"<": "lt", ">": "gt", "=": "eq"}[sign], core.Escape(name)))
+		}
+	}
+	emit(c, "C08.clitips", mode, rn.Dump(), core.Dumps(cns), cliOutcome(res), rows.String())
+}
+
 // ---------------------------------------------------------------------------
 // replay and generation
 
@@ -624,6 +773,12 @@ func Replay(c *core.Ctx, lines []string) {
 			if len(f) >= 7 {
 				r2, c2 = parse(f[5]), parse(f[6])
 			}
+			workers = 1
+			if len(f) >= 11 {
+				if w, err := strconv.Atoi(f[10]); err == nil && w >= 1 {
+					workers = w
+				}
+			}
 			emitCmp(c, f[0] == "C08.wcmp", f[1] == "1", f[2] == "1", rn, cn, r2, c2)
 		case f[0] == "C08.common" && len(f) >= 4:
 			doCommon(c, f[1] == "1", parse(f[2]), parse(f[3]))
@@ -636,6 +791,18 @@ func Replay(c *core.Ctx, lines []string) {
 			}
 			if c.Gotree != "" {
 				doCLI(c, f[1], f[2] == "1", parse(f[3]), cns)
+			}
+		case f[0] == "C08.cliedges" && len(f) >= 3:
+			if c.Gotree != "" {
+				doCLIEdges(c, parse(f[1]), parse(f[2]))
+			}
+		case f[0] == "C08.clitips" && len(f) >= 4:
+			var cns []*core.N
+			for _, d := range strings.Split(strings.TrimSuffix(f[3], "|"), "|") {
+				cns = append(cns, parse(d))
+			}
+			if c.Gotree != "" {
+				doCLITips(c, f[1], parse(f[2]), cns)
 			}
 		default:
 			panic("C08: cannot replay " + f[0])
@@ -677,7 +844,7 @@ func emit(c *core.Ctx, op string, fields ...string) {
 	}
 }
 
-var nOutputs = map[string]int{"C08.cmp": 3, "C08.wcmp": 3, "C08.common": 1, "C08.tipidx": 1, "C08.cli": 2}
+var nOutputs = map[string]int{"C08.cmp": 3, "C08.wcmp": 3, "C08.common": 1, "C08.tipidx": 1, "C08.cli": 2, "C08.cliedges": 2, "C08.clitips": 2}
 
 func parent(c *core.Ctx) {
 	done := 0
@@ -737,11 +904,19 @@ func parent(c *core.Ctx) {
 		}
 		f := strings.Split(pending, "\t")
 		fields := append([]string(nil), f[1:]...)
-		if f[0] == "C08.cli" {
+		nworkers := ""
+		if f[0] == "C08.cmp" || f[0] == "C08.wcmp" {
+			nworkers = fields[len(fields)-1]
+			fields = fields[:len(fields)-1]
+		}
+		if strings.HasPrefix(f[0], "C08.cli") {
 			fields = append(fields, "crash:"+core.Escape(reason), "")
 		} else {
 			for i := 0; i < nOutputs[f[0]]; i++ {
 				fields = append(fields, "panic:"+core.Escape(reason))
+			}
+			if nworkers != "" {
+				fields = append(fields, nworkers)
 			}
 		}
 		c.Emit(f[0], fields...)
@@ -841,6 +1016,48 @@ func Run(c *core.Ctx) {
 				leaves(bad)[0].Name = "zz_other"
 			}
 			doCLI(c, mode, tips, rn, cns)
+		}
+		// compare edges / compare tips
+		m2 := c.Scale(24, 400)
+		for i := 0; i < m2; i++ {
+			if i%2 == 0 {
+				k := -1
+				if g.Chance(0.15) {
+					k = 7
+				}
+				rn, cn := pair(g, false, k)
+				doCLIEdges(c, rn, cn)
+			} else {
+				mode := []string{"c", "f", "cf"}[(i/2)%3]
+				rn, _ := pair(g, false, 0)
+				var cns []*core.N
+				for j, k := 0, 1+g.Intn(3); j < k; j++ {
+					kind := 7
+					if g.Chance(0.3) {
+						kind = 4
+					}
+					// a tree on (mostly) the taxa of rn
+					cn := rn.Clone()
+					if kind == 4 {
+						swapSubtrees(g, cn)
+					}
+					if kind == 7 {
+						l := leaves(cn)
+						switch g.Intn(3) {
+						case 0:
+							l[g.Intn(len(l))].Name = "zz_other"
+						case 1:
+							nt := &core.N{Name: "zz_extra", E: core.NewE()}
+							cn.Kids = append(cn.Kids, nt)
+						default:
+							l[0].Name = "zz_a"
+							l[len(l)-1].Name = "zz_b"
+						}
+					}
+					cns = append(cns, cn)
+				}
+				doCLITips(c, mode, rn, cns)
+			}
 		}
 	}
 }
